@@ -153,13 +153,17 @@ class Model:
         except Exception:
             return
         from . import pat
+        self.role_stats = {"functions": 0, "functions_missing": [], "locals_renamed": 0, "unbound_patterns": []}
         for q, patterns in ROLES.items():
             f = self.functions.get(q)
             if f is None:
+                self.role_stats["functions_missing"].append(q)
                 continue
+            self.role_stats["functions"] += 1
             env = pat.Env()
             for p_ in patterns:
-                pat.has(f.node, p_, env)
+                if not pat.has(f.node, p_, env):
+                    self.role_stats["unbound_patterns"].append(f"{q}: {p_.splitlines()[0][:60]}")
             mapping = {actual: mv[2:] for mv, actual in env.items() if not mv.startswith("___") and actual != mv[2:]}
             if not mapping:
                 continue
@@ -168,6 +172,7 @@ class Model:
             for n in ast.walk(f.node):
                 if isinstance(n, ast.Name) and n.id in taken and n.id not in mapping and n.id not in bound:
                     mapping[n.id] = n.id + "__other"
+            self.role_stats["locals_renamed"] += len(mapping)
             for n in ast.walk(f.node):
                 if isinstance(n, ast.Name) and n.id in mapping:
                     n.id = mapping[n.id]
